@@ -330,6 +330,28 @@ func replayLegacy(line []byte, a *Acc) {
 			eq("j2x.JsonUpdateValsForPath(indented input, "+path+")", string(got)+cls(e), string(cj)+cls(ce))
 		}
 	}
+	for _, k := range l.Ks {
+		if len(k.Paths) == 0 {
+			continue
+		}
+		up := k.Paths[len(k.Paths)-1]
+		c := mxj.Map(tagged.DeepCopyGo(m).(map[string]interface{}))
+		cn, ce := c.UpdateValuesForPath(k.Key+":N", up)
+		if ce != nil || cn == 0 {
+			continue
+		}
+		cj, _ := c.Json()
+		got, e := j2x.JsonUpdateValsForPath(jdoc, k.Key+":N", up)
+		if !eq("j2x.JsonUpdateValsForPath("+k.Key+":N, "+up+")", string(got)+cls(e), string(cj)+"ok") {
+			break
+		}
+		vs, e := j2x.JsonValuesForKey(jdoc, k.Key)
+		cv, cve := mv.ValuesForKey(k.Key)
+		lv, _ := j2x.JsonLeafValues(jdoc)
+		if !eq("j2x read wrappers after j2x.JsonUpdateValsForPath("+k.Key+":N, "+up+") on the same document", bag(vs)+fmt.Sprint(e)+"|"+bag(lv), bag(cv)+fmt.Sprint(cve)+"|"+bag(mv.LeafValues())) {
+			break
+		}
+	}
 	called("JsonNewJson")
 	called("JsonNewXml")
 	{
@@ -387,6 +409,40 @@ func replayLegacy(line []byte, a *Acc) {
 			got, e := x2j.XmlUpdateValsForPath(xdoc, "a:N", firstPath)
 			if ce == nil {
 				eq("x2j.XmlUpdateValsForPath", string(got)+cls(e), string(cx)+cls(cxe))
+			}
+		}
+		// the wrappers are functions of their arguments: an update call that really changes values, followed directly
+		// by read wrappers on the byte-identical document, which must still see the ORIGINAL values
+		for _, k := range l.Ks {
+			cps := xm.PathsForKey(k.Key)
+			if len(cps) == 0 {
+				continue
+			}
+			sort.Strings(cps)
+			up := cps[len(cps)-1]
+			c, _ := mxj.NewMapXml(xdoc)
+			cn, ce := c.UpdateValuesForPath(k.Key+":N", up)
+			cx, cxe := c.Xml()
+			got, e := x2j.XmlUpdateValsForPath(xdoc, k.Key+":N", up)
+			if ce != nil || cn == 0 {
+				continue
+			}
+			if !eq("x2j.XmlUpdateValsForPath("+k.Key+":N, "+up+")", string(got)+cls(e), string(cx)+cls(cxe)) {
+				break
+			}
+			xv, e := x2j.XmlValuesForTag(xdoc, k.Key)
+			cv, cve := xm.ValuesForKey(k.Key)
+			lv, _ := x2j.XmlLeafValues(xdoc)
+			pv, _ := x2j.XmlValuesForPath(xdoc, up)
+			cpv, _ := xm.ValuesForPath(up)
+			g, _ := x2j.XmlToMap(xdoc)
+			nj, _ := x2j.XmlNewJson(xdoc, up+":p")
+			cnm, _ := xm.NewMap(up + ":p")
+			cnj, _ := cnm.Json()
+			if !eq("x2j read wrappers after x2j.XmlUpdateValsForPath("+k.Key+":N, "+up+") on the same document",
+				bag(xv)+fmt.Sprint(e)+"|"+bag(lv)+"|"+bag(pv)+"|"+tagged.CanonGo(g)+"|"+string(nj),
+				bag(cv)+fmt.Sprint(cve)+"|"+bag(xm.LeafValues())+"|"+bag(cpv)+"|"+tagged.CanonGo(xm)+"|"+string(cnj)) {
+				break
 			}
 		}
 		called("XmlNewXml")
